@@ -27,7 +27,7 @@ RULE = (
 )
 ASSUMPTIONS = [
     "LabelMapper (checked by C05) is the oracle; documented map direction from docs/label-models.ipynb",
-    "maps are bijections on positions (an atom goes to exactly one place); homodimerisation excluded",
+    "maps are bijections on positions (an atom goes to exactly one place)",
 ]
 N = {"quick": 300, "thorough": 6000}
 MIN_NONTRIVIAL = {"quick": 60, "thorough": 1200}
@@ -39,7 +39,7 @@ def gen_cases(tier: str, seed: int) -> list[dict]:
 
 
 def gen_network(rng) -> dict:  # noqa: ANN001
-    topo = rng.choice(["chain", "branch", "merge", "split", "cycle"])
+    topo = rng.choice(["chain", "branch", "merge", "split", "cycle", "dimer", "cleavage"])
     v = round(rng.uniform(0.5, 2.0), 3)
     v2 = round(rng.uniform(0.3, 1.5), 3)
     if topo == "chain":
@@ -54,10 +54,19 @@ def gen_network(rng) -> dict:  # noqa: ANN001
     elif topo == "split":
         names = ["A", "B", "C"]
         rx = [("vin", {"A": 1}, v), ("v1", {"A": -1, "B": 1, "C": 1}, v), ("vb", {"B": -1}, v), ("vc", {"C": -1}, v)]
+    elif topo == "dimer":
+        names = ["A", "B"]
+        rx = [("vin", {"A": 1}, 2 * v), ("v1", {"A": -2, "B": 1}, v), ("vout", {"B": -1}, v)]
+    elif topo == "cleavage":
+        names = ["B", "A"]
+        rx = [("vin", {"B": 1}, v), ("v1", {"B": -1, "A": 2}, v), ("vout", {"A": -1}, 2 * v)]
     else:
         names = ["A", "B"]
         rx = [("vin", {"A": 1}, v), ("vf", {"A": -1, "B": 1}, v + v2), ("vr", {"B": -1, "A": 1}, v2), ("vout", {"B": -1}, v)]
     labels = {c: rng.randint(1, 3) for c in names}
+    if topo in ("dimer", "cleavage"):
+        labels["A"] = rng.randint(1, 2)
+        labels["B"] = 2 * labels["A"]
     if topo == "merge":
         labels["C"] = labels["A"] + labels["B"] if rng.random() < 0.7 else rng.randint(1, 3)
     if topo == "split" and rng.random() < 0.7:
@@ -68,7 +77,7 @@ def gen_network(rng) -> dict:  # noqa: ANN001
     fluxes = {}
     noninv = False
     for name, st, flux in rx:
-        subs = [c for c, n in st.items() if n < 0]
+        subs = [c for c, n in st.items() if n < 0 for _ in range(-n)]
         k = flux
         for s in subs:
             k /= pools[s]
@@ -76,7 +85,7 @@ def gen_network(rng) -> dict:  # noqa: ANN001
         fn = [fl.ma0, fl.ma1, fl.ma2][len(subs)]
         comps.append({"kind": "reaction", "name": name, "fn": fl.ref(fn), "args": [f"k_{name}", *subs], "stoich": st})
         S = sum(labels[c] for c in subs)
-        P = sum(labels[c] for c, n in st.items() if n > 0)
+        P = sum(labels[c] * n for c, n in st.items() if n > 0)
         L = max(S, P)
         base = list(range(L))
         mk = rng.choice(["identity", "reverse", "rotate", "perm", "perm"])
